@@ -188,12 +188,16 @@ PROPS = {
             "not modelled: the temp file is neither closed nor removed on error or crash (left-over .grol*.tmp files; observed and predicted, not part of the property)"],
     },
     "C09": {
+        "generated": True,
         "proof_modules": ["GrolProofs.Props.C09"],
         "theorems": ["Grol.Memory.C09.sizeOk_sound", "Grol.Memory.C09.sizeOk_unchecked_unsound", "Grol.Memory.C09.unchecked_product_passes",
                      "Grol.Memory.C09.arrRepeat_sound", "Grol.Memory.C09.strRepeat_sound", "Grol.Memory.C09.arrConcat_sound",
                      "Grol.Memory.C09.mapAppend_sound", "Grol.Memory.C09.range_sound", "Grol.Memory.mulLen_spec",
-                     "Grol.Depth.C09.depth_invariant", "Grol.Depth.C09.reset_restores", "Grol.Depth.C09.chain_ok_iff", "Grol.Depth.run_ok_balanced"],
-        "suites": ["memory"],
+                     "Grol.Depth.C09.depth_invariant", "Grol.Depth.C09.reset_restores", "Grol.Depth.C09.chain_ok_iff", "Grol.Depth.run_ok_balanced",
+                     "Grol.Generated.LoopFacts.C09.loops_classified", "Grol.Generated.LoopFacts.C09.polling_loops_poll",
+                     "Grol.Generated.LoopFacts.C09.bare_for_loops",
+                     "Grol.Memory.C09.strConcat_sound", "Grol.Depth.C09.chainOk_spec", "Grol.Depth.C09.unbounded_recursion_guarded"],
+        "suites": ["memory", "bounded"],
         "rule": "memory suite, 10^5 cases (quick). g: object.SizeOk(n) with the process memory limit set to one of {1, 2^20, 2^26, 2^30, 2^40, 2^62, max}, "
                 "n boundary-biased (0..600, 2^k+-2, around limit/16, 2^55..2^62 + 2^j whose byte size wraps, min/max int64, random), compared with the model on the "
                 "free value the call returns (93k). e: in-process evaluation of string*int, array*int, array+array, map+map and left:right with the memory limit "
@@ -201,17 +205,35 @@ PROPS = {
                 "boundary-biased int64 counts incl. products that overflow (7k; [] * huge is left out: see known candidate). c: 16 real programs in child processes "
                 "with GOMEMLIMIT=64MiB, ulimit -v and a 20 s timeout, far from the budget on either side, incl. the former overflow witnesses. "
                 "d: recursion of depth 0..39 run with MaxDepth around the measured need and in 10..310: outcome, counter at recovery, counter after Reset (150). "
-                "non-trivial = request above 256 objects (g) / every e, c, d case.",
+                "non-trivial = request above 256 objects (g) / every e, c, d case. "
+                "bounded suite (RUNTIME part, measurements): ~65 (quick) / ~450 (thorough) programs, each in its own child process (re-exec of the harness, "
+                "GOMEMLIMIT=256MiB, ulimit -v 6 GiB, kill after deadline+25 s, up to 8 at a time; a killed/dead/slow run is repeated once alone) through "
+                "repl.EvalStringWithOption with MaxDepth in {10,100,1000,10000,default} and MaxDuration in {1ms,10ms,100ms,1s} (0 = none for the recursion and one "
+                "concatenation family). Families: non-terminating loops (empty, counting, nested, printing, counted 1<<62, calling), unbounded recursion (self, with "
+                "argument, mutual, through a closure, through `self`, non-tail), terminating recursion just below/above each limit (need measured in process; default "
+                "depth: extrapolated), nested closures, huge operands (\"ab\"*N, [1]*N, 0:N, a+a, four string doublings) on both sides of the budget, growth in a loop "
+                "(array/string doubling, s*2, map merges, append, nesting), source text nested 10^4..4*10^4 deep (parens, brackets, `- `, `!`, if-blocks, calls, func "
+                "literals, a left-deep + chain; blocks 1000..4000; thorough: 10^6), values with shared structure (a=[a,a] 8..15 times, then a==a / println(a)), sleep(10). Measured per run: exit status, result kind, wall time inside "
+                "EvalStringWithOption, peak RSS (VmHWM). Statement (lean/Grol/BoundedSuite.lean): exit 0, wall <= deadline + 3000 ms, RSS <= 4 x limit, result kind allowed "
+                "for the family (loops: deadline; unbounded recursion: depth, or deadline when one is set; huge operands: refused or within the budget; never a stray Go panic). "
+                "The driver predicts the result kind from Grol.Memory / Grol.Depth where it can (compared: agree) — wall time and RSS are never predicted.",
         "trusted_base": COMMON_TB + [
             "modelled: object.SizeOk/MustBeOk/MulLen with FreeMemory() as a parameter (two readings), the size computations in evalStringInfixExpression, "
             "evalArrayInfixExpression, evalIntegerInfixExpression (range), Map.Append; the depth counter of State.Eval and State.Reset",
             "64-bit int (on 32-bit/wasm builds int(rightVal) truncates; MulLen's lo > math.MaxInt test covers it but the model is 64-bit only)",
             "assumed: lengths of existing arrays/maps are below 2^62 / 2^61 (a 16-byte element cannot be stored 2^62 times in a 64-bit address space); "
             "GOMEMLIMIT accounting (what FreeMemory() returns) is accurate",
-            "NOT covered here: wall-clock bound after the deadline, peak RSS, Go stack growth per frame, GC behaviour (runtime part of C09, measured elsewhere or not yet); "
-            "the other MustBeOk call sites in extensions (str functions) and object (function parameters/body)"],
-        "assumptions": ["candidate for the time part of C09, not a memory-guard issue: `[] * n` runs a Go-level loop of n iterations that appends nothing and never polls the "
-                        "context (the memory suite therefore leaves out empty arrays with huge counts)"],
+            "generated on every run (lean/Grol/Generated/LoopFacts.lean, harness/cmd/harness/extract_loops.go, syntactic): every `for`/`range` statement of packages eval and "
+            "object and of repl.EvalStringWithOption/EvalOne/evalOne/logParserErrors with its header text and whether its body calls a context-polling evaluator entry point; "
+            "the CLASSIFICATION of each loop (polls / bounded by container / guarded allocation / constant / frames) is by hand, with a one-line reason each",
+            "MEASURED, not proved (bounded suite): wall-clock time after the deadline, peak RSS, survival of the process (Go stack growth, GC behaviour, scheduler latency); "
+            "thresholds are the named constants slackMs, rssFactor, memLimitKB of lean/Grol/BoundedSuite.lean; timing depends on the machine and its load",
+            "NOT covered: loops inside extensions/, ast/ (printer), parser/, lexer/ and the Go standard library; the other MustBeOk call sites in extensions (str functions) and "
+            "object (function parameters/body); programs outside the listed families"],
+        "assumptions": ["one evaluation step that is not polled may cost time proportional to the memory budget (a+a on a 64 MiB array under GC pressure: 1.2 s measured), "
+                        "which is why the slack is 3 s and not milliseconds",
+                        "the eval model (lean/Grol/Eval/Ops.lean) was not changed for the new guard on string + string: it only fires above 4096 bytes with less free memory than the "
+                        "result needs, outside what the eval generators produce"],
     },
     "C01": {
         "proof_modules": ["GrolProofs.Props.C01"],
@@ -281,15 +303,25 @@ PROPS = {
     },
     "C15": {
         "generated": True,
-        "proof_modules": ["GrolProofs.Props.C15", "GrolProofs.Props.C08"],
+        "proof_modules": ["GrolProofs.Props.C15", "GrolProofs.Props.C08", "GrolProofs.Props.C15chunks"],
         "theorems": ["Grol.C15.witness_unclosed_string_after_statement", "Grol.C15.witness_empty_lambda_parameter_list",
                      "Grol.C15.witness_unclosed_comment_ending_in_star_slash", "Grol.C15.witness_file_mode_accepts_unclosed_block",
-                     "Grol.C08.parser_never_panics"],
-        "suites": ["parse15"],
+                     "Grol.C08.parser_never_panics",
+                     "Grol.E.C15.evalStatements_append", "Grol.E.C15.evalStatements_append_null", "Grol.E.C15.evalStatements_append_fresh",
+                     "Grol.E.C15.evalStatements_init_irrelevant", "Grol.E.C15.evalI_stmts_append", "Grol.E.C15.evalI_stmts_append_outcome",
+                     "Grol.E.C15.chunks_outcome", "Grol.E.C15.chunks_outcome_stops", "Grol.E.C15.chunks_outcome_error", "Grol.E.C15.chunks_fold"],
+        "suites": ["parse15", "chunks"],
         "rule": _FRONT_RULE + " parse15 suite: grammar-generated valid programs (1-3 statements, depth <=3) and the shipped examples; for each, "
                 "EVERY token-boundary cut, the cut just before the closing quote of every string and 5 cuts inside every block comment "
                 "(case `<program>@<k>`: line mode on the prefix; hypothesis of part 2 decided by Front.cutKind on the file-mode stream of the "
-                "whole program), plus the whole program and a quarter of the prefixes as plain cases for part 1. Part 3 (chunked evaluation) is not covered here.",
+                "whole program), plus the whole program and a quarter of the prefixes as plain cases for part 1. "
+                "chunks suite (part 3): 13 hand-written scripts and 150 (quick) / 900 (thorough) scripts from the typed program generator of the eval suite "
+                "(3-9 top-level statements: assignments, function definitions, loops, prints, a final expression; no macros, no top-level return); for each, "
+                "ALL 2^(n-1) splits into consecutive chunks when n <= 6 statements, otherwise the trivial split, one statement per chunk and 12/40 random splits; "
+                "a chunk's text is the normal-mode printer output of its parsed statements; (a) the script as one input and (b) the chunks one input at a time "
+                "on one persistent eval.State are evaluated by the harness's replica of repl.EvalOne (evalInput: parse, macros, Eval, recover+Reset) in the 4 "
+                "configurations cache on/off x registers on/off; the model's runInput runs on the same parsed inputs (cache on and off) and is compared; "
+                "statement = error-free whole implies error-free chunks, concatenated output, last value and final globals equal. non-trivial = the whole script is error free.",
         "trusted_base": COMMON_TB + _FRONT_TB,
         "assumptions": ["as C08"],
     },
